@@ -25,8 +25,6 @@ ASSUMPTIONS = [
     "proved for the ExtendedDaemonSet reconcile (all snapshots) and for validation/defaulting (all specs)",
     "percent * total below 2^53 in the reconcile cases; the 'huge' stream only checks for panics",
 ]
-OPEN_STATEMENTS = ["C16_ers_reconcile_total: totality of ers_sync for kubelet-shaped pod statuses and controller-written conditions - "
-                   "monitored on every replica-set step of this and all other checks; see DESIGN.md"]
 CODES = {
     1: "model does not predict the implementation",
     10: "Default / IsDefaulted / Validate crashed",
